@@ -397,11 +397,21 @@ pub fn key_bytes(keylen: usize, i: u8) -> Vec<u8> {
 pub async fn wait_quiet(s: &dyn Sut, deferred: bool, max: Duration) -> std::result::Result<BgState, BgState> {
     let start = std::time::Instant::now();
     let mut spins = 0u32;
+    // a deferred dump that is still pending long after its (short) deadline while nothing else is going on
+    let mut only_deferred_since: Option<std::time::Instant> = None;
     loop {
         let st = s.bg();
         let ok = if deferred { st.idle() } else { st.quiet() };
         if ok {
             return Ok(st);
+        }
+        if deferred && st.quiet() && st.deferred_pending {
+            let since = *only_deferred_since.get_or_insert_with(std::time::Instant::now);
+            if since.elapsed() > Duration::from_secs(10) {
+                return Err(st);
+            }
+        } else {
+            only_deferred_since = None;
         }
         if !st.worker_alive() && st.worker_started {
             return Err(st);
